@@ -23,7 +23,7 @@ def body(history):
 
 
 def plan(tier):
-    nshards, n, steps = (16, 1500, 14) if tier == "quick" else (16, 4000, 24)
+    nshards, n, steps = (16, 1500, 14) if tier == "quick" else (16, 30000, 24)
     return [{"name": "hist%d" % i, "n": n, "steps": steps} for i in range(nshards)]
 
 
